@@ -173,25 +173,24 @@ theorem C15_diag_clean (d : Pm.Dev2.Dev) (a : Pm.Dev2.Action) (o : Pm.Dev2.Oracl
         ∃ pl ∈ d.plugs, pl.node = some node :=
   setresult_diag d a o p s i
 
-/-- The `303` lines of a temperature reply are clean lines provided the node names, the ranged string of the nodes without
-    a value, and — the extra hypothesis `hv` — the captured values contain no CR/LF.
-    Full statement: without `hv`.  It is false: `C15_stream_counterexample`.  `hv` excludes devices whose script captures,
-    in the group handed to `setplugstate` of a temperature script, text that spans a line end. -/
-theorem C15_stream_partial (ex : Bool) (k : CmdC) (infos : List Item) (hcom : k.com = .temp)
+/-- The `303` lines of a temperature reply are clean lines, *whatever the device's captured values are* (they are shown up
+    to their first CR or LF: fix F16), provided the node names and the ranged string of the nodes without a value contain no
+    CR/LF (configuration data through the hostlist mirror: the remaining proviso). -/
+theorem C15_stream_values (ex : Bool) (k : CmdC) (infos : List Item) (hcom : k.com = .temp)
     (h : finalInfos ex k = some infos)
     (hn : ∀ a ∈ entriesOf k, cleanText (ofChars a.node) = true)
-    (hv : ∀ a ∈ entriesOf k, ∀ v, a.val = some v → cleanText v = true)
     (hr : ∀ r, sortedRanged (((entriesOf k).filter (·.val.isNone)).map (·.node)) = some r → cleanText r = true) :
     ∀ i ∈ infos, i.clean = true :=
-  finalInfos_temp_clean ex k infos hcom h hn hv hr
+  finalInfos_temp_clean ex k infos hcom h hn hr
 
-/-- F16: a temperature query on one node whose captured value is `1\r\n102 x`.  The one reply the daemon builds reads, on
-    the wire, as a `303` line, a forged *terminal* line `102 x`, and then the real terminal line `103` — two terminal lines
-    for one request. -/
-theorem C15_stream_counterexample :
-    finalReply false f16Cmd =
-      some (render [Item.line 303 (bstr "n: 1"), Item.line 102 (bstr "x"), Item.line 103 (bstr "Query complete")]) :=
-  finalReply_forged
+/-- the value shown is clean for any bytes -/
+theorem C15_value_clean (v : Bytes) : cleanText (firstLine v) = true := firstLine_clean v
+
+/-- F16 as it was found (a captured value `1\r\n102 x` forged a terminal line inside the reply): after the fix the reply is
+    one `303` line and the real terminal line. -/
+theorem C15_stream_f16_fixed :
+    finalReply false f16Cmd = some (render [Item.line 303 (bstr "n: 1"), Item.line 103 (bstr "Query complete")]) :=
+  finalReply_not_forged
 
 /-- Every reply format of `client_proto.h` — regenerated from the source on every run — is a non-empty sequence of complete
     `NNN␠text CRLF` lines with `NNN` among the documented codes and nothing after the last CRLF (decided by the kernel over the
